@@ -127,6 +127,16 @@ def one_case(ctx, index: int, rng: random.Random):
         for _ in range(rng.randint(1, 3)):
             rows[rng.randrange(n), rng.randrange(d)] = float("nan")
         has_nan = True
+    has_inf = False
+    if n > 3 and rng.random() < 0.15 and not derived:
+        # infinite coordinates lie in no cell: the row is missed (not dropped), also when both signs meet in one row
+        for _ in range(rng.randint(1, 3)):
+            r = rng.randrange(n)
+            rows[r, rng.randrange(d)] = rng.choice([np.inf, -np.inf])
+            if rng.random() < 0.5:
+                a, b = rng.sample(range(d), 2)
+                rows[r, a], rows[r, b] = np.inf, -np.inf
+        has_inf = True
     wts, wkind = gen.weights(rng, n)
     general = False
     if wts is not None and rng.random() < 0.1:
@@ -216,7 +226,7 @@ def one_case(ctx, index: int, rng: random.Random):
     on_last = any((fin[:, ax] == bins[ax][-1, 1]).any() for ax in range(min(d, len(bins)))) if len(fin) else False
     outside = any(((fin[:, ax] < bins[ax][0, 0]) | (fin[:, ax] > bins[ax][-1, 1])).any() for ax in range(min(d, len(bins)))) if len(fin) else False
     nontrivial = len(set(shape)) > 1 and on_last and outside
-    rec.case(desc, nontrivial, cls=f"{form}/d{d}/{wkind}{'/nan' if has_nan else ''}/{'+'.join(sorted(set(s[3] for s in specs)))}",
+    rec.case(desc, nontrivial, cls=f"{form}/d{d}/{wkind}{'/nan' if has_nan else ''}{'/inf' if has_inf else ''}/{'+'.join(sorted(set(s[3] for s in specs)))}",
              sample={"form": form, "shape": shape, "bins": [b.tolist()[:4] for b in bins], "rows": rows.tolist()[:6],
                      "weights": None if wts is None else list(wts)[:6], "missed": float(h.missed), "total": float(h.total)})
 
